@@ -20,6 +20,7 @@ from ..schema import (
 from ..schema.scalars import MAX_INT, MIN_INT, SPECIFIED_SCALAR_TYPES
 
 
+_NAME_RE = re.compile(r"^[_a-zA-Z][_a-zA-Z0-9]*\Z")
 _INT_RE = re.compile(r"^-?(0|[1-9][0-9]*)\Z")
 _FLOAT_RE = re.compile(
     r"^-?(0|[1-9][0-9]*)(\.[0-9]+[eE][+-]?[0-9]+|\.[0-9]+|[eE][+-]?[0-9]+)\Z"
@@ -120,11 +121,51 @@ def _object_value_node_from_value(
     return _ast.ObjectValue(fields=field_nodes)
 
 
+def _structured_node_from_value(
+    input_type: GraphQLType, value: Any
+) -> _ast.Value:
+    if value is None:
+        return _ast.NullValue()
+
+    if isinstance(value, (list, tuple)):
+        return _ast.ListValue(
+            values=[
+                _structured_node_from_value(input_type, entry)
+                for entry in value
+            ]
+        )
+
+    if isinstance(value, dict):
+        for key in value:
+            if not (isinstance(key, str) and _NAME_RE.match(key)):
+                raise ValueError()
+
+        return _ast.ObjectValue(
+            fields=[
+                _ast.ObjectField(
+                    name=_ast.Name(value=key),
+                    value=_structured_node_from_value(input_type, entry),
+                )
+                for key, entry in value.items()
+            ]
+        )
+
+    return _scalar_node_from_value(input_type, value)
+
+
 def _scalar_node_from_value(
     input_type: GraphQLType, scalar_value: Any
 ) -> _ast.Value:
     if isinstance(scalar_value, bool):
         return _ast.BooleanValue(value=scalar_value)
+
+    if (
+        isinstance(scalar_value, (list, tuple, dict))
+        and isinstance(input_type, ScalarType)
+        and input_type not in SPECIFIED_SCALAR_TYPES
+    ):
+        # JSON like custom scalars are written as list / object literals.
+        return _structured_node_from_value(input_type, scalar_value)
 
     if isinstance(scalar_value, (int, float)):
         if input_type is Int:
